@@ -453,7 +453,8 @@ def data() -> dict:
     d.update({'alias_rule': rule, 'roots_order': roots, 'reserved_namespaces': ns, 'reserved_names': nm, 'templates': tpl,
               'init_written': shape['written'], 'gate_reserved': shape['gate_reserved'],
               'gate_checks_existing': shape['gate_checks_existing'], 'gate_refs': shape['gate_refs'],
-              'field_is_instance': inst_body, 'template_suffix': template_suffix()})
+              'field_is_instance': inst_body, 'template_suffix': template_suffix(),
+              'index_top_level_only': loader_shape() == 'top'})
     return d
 
 
@@ -498,6 +499,8 @@ def render(d: dict) -> str:
              'vdt = class of value.data_type *)')
     L.append('Definition g_field_is_instance (isinst : N -> N -> bool) (attr root vc vdt : N) : bool :=\n  %s.\n' % d['field_is_instance'])
     L.append('Definition g_template_suffix : str := %s. (* TEMPLATE_SUFFIX = %r *)\n' % (coq_str(d['template_suffix']), d['template_suffix']))
+    L.append('(* which pinned shape type_to_template has: true = only templates directly under a templates directory are indexed *)')
+    L.append('Definition g_index_top_level_only : bool := %s.\n' % ('true' if d['index_top_level_only'] else 'false'))
     L.append('(* names in a fresh CodeGenEnvironment per target language (before DSDL tests and user additions) *)')
     for kind in ('tests', 'filters', 'globals'):
         L.append('Definition g_env_%s : list (str * list str) :=\n  [' % kind + ';\n   '.join(
@@ -533,9 +536,35 @@ PIN_ENV = [('src/nunavut/jinja/environment.py', 'CodeGenEnvironment._add_to_envi
            ('src/nunavut/jinja/environment.py', 'CodeGenEnvironment._add_each_to_environment')]
 
 
-def pin_c16_loader():
+PIN_LOADER_TOP = PIN_LOADER + [('src/nunavut/jinja/loaders.py', 'DSDLTemplateLoader._type_templates')]
+
+
+def loader_shape() -> typing.Optional[str]:
+    """which of the two shapes the hand model of the loader knows the code has:
+    'all'  = type_to_template indexes every listed template by its stem (sub-directories included; F-LOOKUP-SUBDIR-NAME),
+    'top'  = only templates directly under a templates directory (`_type_templates`, design_notes/C16_subdir_name_fix.patch),
+    None   = neither (fail closed)"""
     from . import shape_pin
-    return shape_pin.check_pin('c16_loader', PIN_LOADER)
+    for shape, name, targets in (('all', 'c16_loader', PIN_LOADER), ('top', 'c16_loader_toplevel', PIN_LOADER_TOP)):
+        try:
+            cur = '\n'.join('## %s:%s\n%s' % (p, q, shape_pin.normalized_dump(p, q)) for p, q in targets) + '\n'
+            with open(os.path.join(shape_pin.PINS, name + '.txt'), encoding='utf-8') as f:
+                if f.read() == cur:
+                    return shape
+        except (OSError, KeyError, SyntaxError, AssertionError):
+            continue
+    return None
+
+
+def pin_c16_loader():
+    out = os.path.join(gen.GEN_DIR, 'Gen_Pin_c16_loader.v')
+    head = gen.HEADER % ', '.join('%s:%s' % t for t in PIN_LOADER_TOP)
+    shape = loader_shape()
+    if shape is None:
+        gen.write_if_changed(out, head + '(* shape of the pinned loader functions is neither of the two the hand model was written for *)\n')
+        return False, 'shape pin c16_loader: the code no longer has a shape the hand model was written for'
+    gen.write_if_changed(out, head + '(* shape: %s *)\nDefinition pin_c16_loader_ok : bool := true.\n' % shape)
+    return True, 'ok (%s)' % shape
 
 
 def pin_c16_env():
